@@ -129,6 +129,13 @@ def run(pid, tier):
     runs = [("seed0", child_run(jobs, 0)), ("seed1", child_run(jobs, 1)), ("seedR", child_run(jobs, "random"))]
     if thorough:
         runs += [("seed%d" % s, child_run(jobs, s)) for s in (2, 3, 12345)]
+    # a fresh interpreter per configuration (no earlier anonymizer with another salt or word list in the process):
+    # the pseudonym function learned there must agree with the one seen in the shared processes
+    fresh_idx = list(range(0, len(jobs), max(1, len(jobs) // (40 if thorough else 14))))
+    import concurrent.futures
+    with concurrent.futures.ThreadPoolExecutor(max_workers=common.NPROC) as ex:
+        fresh = dict(zip(fresh_idx, ex.map(lambda i: child_run([jobs[i]], 3)[0], fresh_idx)))
+    ck.notes["configurations_also_run_in_a_fresh_process_each"] = len(fresh_idx)
     traces, meta = [], []
     for ji, (c, salt, lines, mts) in enumerate(info):
         relevant_builtin = sorted({t for ln in lines for t in ln.split() if t.lower() in BUILTIN})
@@ -136,7 +143,7 @@ def run(pid, tier):
                "reserved": [cps(w) for w in c["reserved"]] + [cps(w.lower()) for w in relevant_builtin], "clauses": CLAUSES}]
         texts = [None]
         outs_all = []
-        for name, res in runs:
+        for name, res in runs + ([("fresh-process", {ji: fresh[ji]})] if ji in fresh else []):
             o = res[ji]
             if isinstance(o, str):
                 ev.append({"ev": "exc", "what": "%s: %s" % (name, o)})
